@@ -228,6 +228,11 @@ VCrAcc(ev) ==
         Ok(IF ~coding THEN Rejected(o)
            ELSE IF cb = <<>> THEN Rejected(o) \/ (IsVal(o) /\ (IsEmptyLoc(o[2]) \/ LenLoc(o[2]) = 0))
            ELSE IsVal(o) /\ ~IsEmptyLoc(o[2]) /\ BlocksPos(o[2][1]) = BlocksPos(cb) /\ St(o[2]) = cst, "accessor:cds-on-chunk")
+     \* the chunk-relative dictionary form lists the same clipped blocks; it is one export of exons AND coding sequence, so
+     \* it may be refused when either has nothing on the chunk
+     ELSE IF nm \in {"dict_chunk_exons", "dict_chunk_cds"} THEN
+        LET want == IF nm = "dict_chunk_exons" THEN eb ELSE cb IN
+        Ok(SameBlocks(o, want) \/ ((eb = <<>> \/ (coding /\ cb = <<>>)) /\ Rejected(o)), "accessor:chunk-relative-dictionary-form")
      ELSE "accessor:unknown"])
 (* ["fmap", blocks, ws, we, minusChunk, chunkPosToFeature, featurePosToChunk, seqPosToFeature, featurePosToSeq] : the four point
    maps of a FeatureInterval built on a chunk (the generic twins of the transcript's) *)
